@@ -195,12 +195,16 @@ pub fn all() -> Vec<Scenario> {
         vec![0x01, 0x03, 0xff, 0xff, 0xff, 0xff, 0x0f, 0x00],
         vec![0x01, 0x03, 0xfe, 0xff, 0xff, 0xff, 0x07, 0x00],
         vec![0x01, 0xff, 0xff, 0xff, 0xff, 0xff, 0x7f, 0x00],
+        // wire generation 0x7fff_ffff decodes to generation 0x8000_0000: the first value whose bits are not
+        // an entity (seeded C06-e); and one from the middle of the invalid range
+        vec![0x01, 0x03, 0xff, 0xff, 0xff, 0xff, 0x07, 0x00],
+        vec![0x01, 0x03, 0xff, 0xff, 0xff, 0xff, 0x0e, 0x00],
     ]
     .into_iter()
     .enumerate()
     {
         v.push(Scenario {
-            id: ["F10a", "F10b", "F10c", "F10d"][i],
+            id: ["F10a", "F10b", "F10c", "F10d", "F10f", "F10g"][i],
             props: vec!["C06"],
             trace: Trace {
                 profile: p10.clone(),
@@ -333,7 +337,7 @@ pub fn all() -> Vec<Scenario> {
     // F22: event queued on the client when the session ends must not appear in the next session.
     v.push(Scenario {
         id: "F22",
-        props: vec!["C05", "C09"],
+        props: vec!["C04", "C05", "C09"],
         trace: Trace {
             profile: prof(),
             steps: cat(vec![
